@@ -382,4 +382,4 @@ func runCache(t *tr.Trace, r *tr.Rand, n int) {
 	}
 }
 
-func init() { register("cache", runCache) }
+func main() { tr.Main(runCache) }
